@@ -440,6 +440,9 @@ func Run(o *corr.Out) {
 	}
 	if want("probe") {
 		famProbe(o, 60*mul)
+		if !want("close") {
+			famServeHostile(o) // abandoned-then-call: the connection keeps serving (C06)
+		}
 	}
 	if want("cancel") {
 		famCancel(o, 60*mul)
@@ -447,6 +450,9 @@ func Run(o *corr.Out) {
 	if want("fault") {
 		famFault(o, 6*mul)
 		famFaultStalledWrite(o)
+		if !want("cancel") {
+			famSelectRace(o)
+		}
 	}
 	if want("close") {
 		famClose(o, 6*mul)
@@ -702,6 +708,8 @@ func famCancel(o *corr.Out, n int) {
 			subsets = append(subsets, ks)
 		}
 	}
+	famSelectRace(o)
+	famCancelAtOffer(o)
 	famServerCancel(o)
 	famWaitingInvoke(o)
 	famCancelBeforeInvoke(o)
@@ -1079,6 +1087,77 @@ func famQueuedUnary(o *corr.Out) {
 				o.OracleOK("C02:isolation")
 			}
 			finish(o, sc)
+		}
+	}
+}
+
+// famCancelAtOffer: the context of a call is cancelled at the instant its new stream is about to be
+// handed to manageStreams (after the semaphore was taken and the stream published).  Whatever the
+// call returns, the connection must afterwards serve a probe or report itself closed.
+func famCancelAtOffer(o *corr.Out) {
+	for _, soft := range []bool{false, true} {
+		for rep := 0; rep < 6; rep++ {
+			sc := &scenario{cfg: Config{Soft: soft}, class: "cancel-at-offer"}
+			if rep%2 == 1 {
+				sc.do("inv!u1!1!r1.s1:1.x!1!7")
+			}
+			sc.do("ocancel!1")
+			ob := sc.do("inv!u2!2!r1.s1:1.x!1!1")
+			if contains(lastPending(ob), "u2") {
+				o.Oracle("C04:cancel-unblocks", sc.request(), fmt.Sprintf("soft=%v a call cancelled at the hand-off of its stream did not return: %s", soft, ob))
+			} else {
+				o.OracleOK("C04:cancel-unblocks")
+			}
+			probe(o, sc, "C04:conn-usable-or-closed", false)
+			finish(o, sc)
+		}
+	}
+}
+
+// famSelectRace: manageStream is held in front of its select while several of its branches become
+// ready (the stream finishes, its context is cancelled, the transport's read side fails); whichever
+// branch Go picks, the manager's bookkeeping must stay sound: the NEXT rpc is watched (cancelling
+// its context unblocks its receive) or the connection reports itself closed.
+func famSelectRace(o *corr.Out) {
+	combos := [][]string{{"clo!x1!1", "can!1"}, {"can!1", "clo!x1!1"}, {"clo!x1!1", "failr!A"}, {"can!1", "failr!A"}, {"clo!x1!1", "can!1", "failr!A"}}
+	for _, soft := range []bool{false, true} {
+		for _, combo := range combos {
+			for rep := 0; rep < 4; rep++ {
+				sc := &scenario{cfg: Config{Soft: soft}, class: "select-race"}
+				sc.do("mspark")
+				sc.do("new!n1!1!rA.x!1")
+				for _, a := range combo {
+					sc.do(a)
+				}
+				sc.do("prel!@mgr")
+				ob := sc.do("new!n2!2!w.x!2")
+				closed := strings.HasSuffix(ob, "X1]")
+				if sc.results()["n2"] == "ok" {
+					sc.do("rcv!r2.0!2")
+					if rep%2 == 0 {
+						ob = sc.do("can!2")
+						if contains(lastPending(ob), "r2.0") {
+							o.Oracle("C04:cancel-unblocks", sc.request(), fmt.Sprintf("soft=%v the rpc after a select race is not watched: its receive stays blocked after its context was cancelled; blocked: %s",
+								soft, strings.Join(sc.w.LastObs().ClientCensus, " | ")))
+						} else {
+							o.OracleOK("C04:cancel-unblocks")
+						}
+					} else {
+						ob = sc.do("fail!A")
+						if contains(lastPending(ob), "r2.0") {
+							o.Oracle("C05:fault-contained", sc.request(), fmt.Sprintf("soft=%v the rpc after a select race is not watched: its receive stays blocked after the transport failed; blocked: %s",
+								soft, strings.Join(sc.w.LastObs().ClientCensus, " | ")))
+						} else {
+							o.OracleOK("C05:fault-contained")
+						}
+					}
+				} else if !closed && contains(lastPending(ob), "n2") {
+					o.Oracle("C06:next-rpc-completes", sc.request(), "the next stream cannot be created and the connection is not closed: "+ob)
+				} else {
+					o.OracleOK("C06:next-rpc-completes")
+				}
+				finish(o, sc)
+			}
 		}
 	}
 }
